@@ -612,7 +612,7 @@ def kge(obs, sim, trans=transform.Identity(), excludenull=False):
 
     # Correlation
     if abs(stds) > EPS:
-        corr = np.corrcoef(tobs, tsim)[0, 1]
+        corr = np.corrcoef(np.ravel(tobs), np.ravel(tsim))[0, 1]
     else:
         warnings.warn("KGE - Standard dev of sim is close to " +
                       f"zero ({stds:3.3e}), cannot compute correlation, " +
